@@ -209,8 +209,6 @@ class DeepSearch(dict):
             if not print_as_attribute and isinstance(item_key, str):
                 # quoted the way DeepDiff quotes keys, so that the path can be parsed back when the key holds a quote
                 item_key_str = stringify_element(item_key, quote_str="'{}'")
-            elif not print_as_attribute and isinstance(item_key, strings):
-                item_key_str = "'%s'" % item_key
             else:
                 item_key_str = item_key
 
